@@ -303,7 +303,13 @@ func (c *Conn) Read(p []byte) (int, error) {
 	if c.MinReadCost > 0 {
 		minAt = time.Now().Add(c.MinReadCost)
 	}
+	// a network connection whose read deadline has already passed when Read is called fails at once, whether or not
+	// bytes are waiting (net.TCPConn and net.Pipe both look at the deadline first)
+	expired := !c.SerialMode && !deadline.IsZero() && !time.Now().Before(deadline)
 	r := s.ParkL("rd:"+c.Name, "read", c.locker(), func(now time.Time) (bool, Reason, time.Time) {
+		if expired && !c.closed {
+			return true, Timeout, time.Time{}
+		}
 		n, headErr, next := c.availLocked(now)
 		if n > 0 {
 			return true, Ready, time.Time{}
@@ -340,8 +346,11 @@ func (c *Conn) Read(p []byte) (int, error) {
 	}
 	now := time.Now()
 	n, headErr, _ := c.availLocked(now)
+	if expired {
+		n, headErr = 0, false
+	}
 	if n == 0 && !headErr {
-		if len(c.in.segs) == 0 && c.in.eof {
+		if len(c.in.segs) == 0 && c.in.eof && !expired {
 			c.record(IORec{Kind: "read", Err: io.EOF})
 			s.logLocked("read %s eof", c.Name)
 			return 0, io.EOF
